@@ -32,6 +32,8 @@ Proof. destruct s; reflexivity. Qed.
 Lemma dof_gpop s r : dof (gpop s) r = dof s r.
 Proof. destruct s; reflexivity. Qed.
 
+Definition genv0 := list (string * gatedef).
+
 (* ---------- instantiating the body ---------- *)
 Definition gq_of (qmap : list (string * bitref)) (q : qarg) : option qarg :=
   match q with
@@ -49,12 +51,23 @@ Definition inst_gop (pmap : list (string * pyval)) (qmap : list (string * bitref
   | _ => None
   end.
 
-(* one statement of the body, instantiated: a (possibly modified) basis gate with closed parameter expressions, unrolled as
-   Lang/ModUnrollProofs.v says *)
-Definition binst (pmap : list (string * pyval)) (qmap : list (string * bitref)) (name : string) (env : renv) (op : stmt)
+Definition gframe (s s' : st) : Prop := gates s' = gates s /\ gstack s' = gstack s.
+
+Lemma gframe_DE s s' : DE s s' -> gframe s s'.
+Proof.
+  intros D. pose proof (de_core _ _ D) as E. split.
+  - transitivity (gates (nodepth s')); [destruct s'; reflexivity|]. rewrite E. destruct s; reflexivity.
+  - transitivity (gstack (nodepth s')); [destruct s'; reflexivity|]. rewrite E. destruct s; reflexivity.
+Qed.
+
+(* one statement of the body, instantiated and handed to a handler: a (possibly modified) basis gate with closed parameter
+   expressions (Lang/ModUnrollProofs.v), or a call of another defined gate *)
+Definition handler := stmt -> option (list stmt * list (list rsrc)).
+
+Definition binst (pmap : list (string * pyval)) (qmap : list (string * bitref)) (name : string) (H : handler) (op : stmt)
   : option (list stmt * list (list rsrc)) :=
   match inst_gop pmap qmap op with
-  | Some op' => if negb (String.eqb (match op with SGate _ n _ _ => n | _ => "" end) name) then mod_ok env op' else None
+  | Some op' => if negb (String.eqb (match op with SGate _ n _ _ => n | _ => "" end) name) then H op' else None
   | None => None
   end.
 
@@ -74,15 +87,42 @@ Proof.
     rewrite (bind_eq _ _ s (qarg_of b) s eq_refl). rewrite (bind_eq _ _ s r s (IH r s eq_refl)). reflexivity.
 Qed.
 
-Section Body.
+(* the actual parameters of a call: closed expressions, evaluated where the call stands *)
+Definition cvals (args : list expr) : option (list pyval) := mapM ceval args.
+
+Lemma cvals_eval call_rec args : forall vs s, cvals args = Some vs -> mapMM (fun e => eval0 call_rec e false None) args s = Ok (vs, s).
+Proof.
+  unfold cvals. induction args as [|e args IH]; intros vs s H; cbn [mapM] in H.
+  - injection H as <-. reflexivity.
+  - destruct (ceval e) as [v|] eqn:Ev; [|discriminate H]. destruct (mapM ceval args) as [r|] eqn:Em; [|discriminate H]. injection H as <-.
+    cbn [mapMM].
+    assert (E0 : eval0 call_rec e false None s = Ok (v, s)).
+    { unfold eval0. rewrite (bind_eq _ _ s (v, []) s (ceval_eval call_rec e v s Ev)). reflexivity. }
+    rewrite (bind_eq _ _ s v s E0). rewrite (bind_eq _ _ s r s (IH r s eq_refl)). reflexivity.
+Qed.
+
+Lemma cvals_length args vs : cvals args = Some vs -> List.length vs = List.length args.
+Proof.
+  unfold cvals. revert vs. induction args as [|e args IH]; intros vs H; cbn [mapM] in H.
+  - injection H as <-. reflexivity.
+  - destruct (ceval e); [|discriminate H]. destruct (mapM ceval args) as [r|]; [|discriminate H]. injection H as <-.
+    cbn. now rewrite (IH r eq_refl).
+Qed.
+
+
+(* ---------- one call, given what the statements of the body unroll to ---------- *)
+Section Call.
 Variable check_only : bool.
 Variable f : nat.
-Variables (name : string) (pmap : list (string * pyval)) (qmap : list (string * bitref)).
+Variables (env : renv) (G : genv0) (name : string) (stk : list string).
+Variable H : handler.
+(* the handler is right about every statement, in every state that holds the registers, the definitions and this expansion stack *)
+Hypothesis HH : forall op' o e s0, H op' = Some (o, e) -> Regs env s0 -> gates s0 = G -> gstack s0 = name :: stk ->
+  exists s1, visit_stmt check_only [] (S f) op' s0 = Ok ((if check_only then [] else o), s1) /\ DE s0 s1 /\ Dstep s0 s1 e.
 
-(* the body of the definition, statement by statement: each is instantiated and visited as the flat operation it has become *)
-Lemma gate_body_fix env body : forall s parts,
-  Regs env s ->
-  mapM (binst pmap qmap name env) body = Some parts ->
+Lemma gate_body_fix pmap qmap body : forall s parts,
+  Regs env s -> gates s = G -> gstack s = name :: stk ->
+  mapM (binst pmap qmap name H) body = Some parts ->
   exists s',
     concatMM (fun op =>
        match op with
@@ -108,16 +148,17 @@ Lemma gate_body_fix env body : forall s parts,
        end) body s = Ok ((if check_only then [] else List.concat (map fst parts)), s') /\ DE s s' /\
     Dstep s s' (List.concat (map snd parts)).
 Proof.
-  induction body as [|op body IH]; intros s parts R H; cbn [mapM] in H.
-  - injection H as <-. exists s. split; [destruct check_only; reflexivity|]. split; [apply DE_refl|apply Dstep_same; reflexivity].
-  - destruct (binst pmap qmap name env op) as [[o e]|] eqn:Eb; [|discriminate H].
-    match type of H with match ?m with _ => _ end = _ => destruct m as [parts'|] eqn:Em; [|discriminate H] end. injection H as <-.
+  induction body as [|op body IH]; intros s parts R Hg Hs Hm; cbn [mapM] in Hm.
+  - injection Hm as <-. exists s. split; [destruct check_only; reflexivity|]. split; [apply DE_refl|apply Dstep_same; reflexivity].
+  - destruct (binst pmap qmap name H op) as [[o e]|] eqn:Eb; [|discriminate Hm].
+    match type of Hm with match ?m with _ => _ end = _ => destruct m as [parts'|] eqn:Em; [|discriminate Hm] end. injection Hm as <-.
     unfold binst in Eb. destruct (inst_gop pmap qmap op) as [op'|] eqn:Ei; [|discriminate Eb].
     destruct op; try discriminate Ei. cbn [inst_gop] in Ei.
     destruct (mapM (gq_of qmap) qubits) as [gqs'|] eqn:Eq; [|discriminate Ei]. injection Ei as <-.
     destruct (negb (String.eqb name0 name)) eqn:Hne; [|discriminate Eb].
-    destruct (mod_fix check_only f env s (SGate mods name0 (map (subst_params pmap) args) gqs') o e R Eb) as (s1 & E1 & D1 & S1).
-    destruct (IH s1 parts' (Regs_DE _ _ _ R D1) eq_refl) as (s2 & E2 & D2 & S2).
+    destruct (HH (SGate mods name0 (map (subst_params pmap) args) gqs') o e s Eb R Hg Hs) as (s1 & E1 & D1 & S1).
+    destruct (gframe_DE _ _ D1) as [Fg Fs].
+    destruct (IH s1 parts' (Regs_DE _ _ _ R D1)) as (s2 & E2 & D2 & S2); [congruence|congruence|reflexivity|].
     cbn [concatMM]. rewrite Hne. cbn [guard].
     rewrite (bind_eq _ _ s (if check_only then [] else o) s1).
     2:{ rewrite (bind_eq _ _ s tt s eq_refl). rewrite (bind_eq _ _ s gqs' s (mapMM_gq qmap qubits gqs' s Eq)). exact E1. }
@@ -125,72 +166,40 @@ Proof.
     split; [unfold ret; destruct check_only; reflexivity|].
     split; [eapply DE_trans; eauto|]. cbn [map List.concat fst snd]. eapply Dstep_trans; eauto.
 Qed.
-End Body.
 
-(* ---------- the call ---------- *)
-Definition call_out (env : renv) (gd : gatedef) (name : string) (vs : list pyval) (bs : list bitref)
-  : option (list stmt * list (list rsrc)) :=
-  let qmap := dedup_names_last (combine (g_qubits gd) bs) in
-  let pmap := fold_left (fun acc p => sset (fst p) (snd p) acc) (combine (g_params gd) vs) [] in
-  match mapM (binst pmap qmap name env) (g_body gd) with
-  | Some parts => Some (List.concat (map fst parts), List.concat (map snd parts))
-  | None => None
-  end.
-
-(* the actual parameters of a call: closed expressions, evaluated where the call stands *)
-Definition cvals (args : list expr) : option (list pyval) := mapM ceval args.
-
-Lemma cvals_eval call_rec args : forall vs s, cvals args = Some vs -> mapMM (fun e => eval0 call_rec e false None) args s = Ok (vs, s).
-Proof.
-  unfold cvals. induction args as [|e args IH]; intros vs s H; cbn [mapM] in H.
-  - injection H as <-. reflexivity.
-  - destruct (ceval e) as [v|] eqn:Ev; [|discriminate H]. destruct (mapM ceval args) as [r|] eqn:Em; [|discriminate H]. injection H as <-.
-    cbn [mapMM].
-    assert (E0 : eval0 call_rec e false None s = Ok (v, s)).
-    { unfold eval0. rewrite (bind_eq _ _ s (v, []) s (ceval_eval call_rec e v s Ev)). reflexivity. }
-    rewrite (bind_eq _ _ s v s E0). rewrite (bind_eq _ _ s r s (IH r s eq_refl)). reflexivity.
-Qed.
-
-Lemma cvals_length args vs : cvals args = Some vs -> List.length vs = List.length args.
-Proof.
-  unfold cvals. revert vs. induction args as [|e args IH]; intros vs H; cbn [mapM] in H.
-  - injection H as <-. reflexivity.
-  - destruct (ceval e); [|discriminate H]. destruct (mapM ceval args) as [r|]; [|discriminate H]. injection H as <-.
-    cbn. now rewrite (IH r eq_refl).
-Qed.
-
-Lemma custom_call_fix check_only f env s name gd args vs bs out evs :
-  Regs env s -> sget name (gates s) = Some gd -> smem name (gstack s) = false ->
+Lemma custom_call_core s gd args vs bs parts :
+  Regs env s -> gates s = G -> gstack s = stk -> sget name G = Some gd -> smem name stk = false ->
   cvals args = Some vs ->
   List.length vs = List.length (g_params gd) -> List.length bs = List.length (g_qubits gd) ->
   forallb (in_reg (e_q env)) bs = true -> distinctb [] bs = true ->
-  call_out env gd name vs bs = Some (out, evs) ->
+  mapM (binst (fold_left (fun acc p => sset (fst p) (snd p) acc) (combine (g_params gd) vs) [])
+              (dedup_names_last (combine (g_qubits gd) bs)) name H) (g_body gd) = Some parts ->
   exists s', visit_stmt check_only [] (S (S f)) (SGate [] name args (map qarg_of bs)) s
-             = Ok ((if check_only then [] else out), s') /\ DE s s' /\ Dstep s s' evs.
+             = Ok ((if check_only then [] else List.concat (map fst parts)), s') /\ DE s s' /\ Dstep s s' (List.concat (map snd parts)).
 Proof.
-  intros R Hg Hst Hargs Hv Hb Hin Hd Hout.
+  intros R HG Hstk Hg Hst Hargs Hv Hb Hin Hd Ep.
   cbn [visit_stmt visit_stmt_body]. set (vr := visit_stmt check_only [] (S f)). set (cr := visit_call check_only [] (S f)).
   unfold visit_generic_gate. cbn [collapse_mods]. rewrite (bind_eq _ _ s (VInt 1, false) s eq_refl).
   rewrite (bind_eq _ _ s s s eq_refl). rewrite (in_some_function_false env s R), andb_false_r.
   rewrite (bind_eq _ _ s (map qarg_of bs) s eq_refl). rewrite (bind_eq _ _ s 1 s eq_refl).
   cbn [Z.ltb Z.compare guard]. rewrite (bind_eq _ _ s tt s eq_refl).
   change (Z.to_nat 1) with 1%nat. cbn [repeatM].
-  set (qmap := dedup_names_last (combine (g_qubits gd) bs)).
-  set (pmap := fold_left (fun acc p => sset (fst p) (snd p) acc) (combine (g_params gd) vs) []).
-  unfold call_out in Hout. fold qmap pmap in Hout.
-  destruct (mapM (binst pmap qmap name env) (g_body gd)) as [parts|] eqn:Ep; [|discriminate Hout]. injection Hout as <- <-.
-  destruct (gate_body_fix check_only f name pmap qmap env (g_body gd) (gpush s name) parts (Regs_gpush env s name R) Ep)
-    as (s4 & E4 & D4 & S4).
+  set (qmap := dedup_names_last (combine (g_qubits gd) bs)) in *.
+  set (pmap := fold_left (fun acc p => sset (fst p) (snd p) acc) (combine (g_params gd) vs) []) in *.
+  assert (Hg' : sget name (gates s) = Some gd) by (now rewrite HG).
+  assert (Hst' : smem name (gstack s) = false) by (now rewrite Hstk).
+  destruct (gate_body_fix pmap qmap (g_body gd) (gpush s name) parts (Regs_gpush env s name R)) as (s4 & E4 & D4 & S4).
+  { destruct s; exact HG. } { destruct s; cbn in *. now rewrite Hstk. } { exact Ep. }
   set (out := List.concat (map fst parts)) in *.
   assert (Hc : visit_custom_gate check_only vr cr name args (map qarg_of bs) false s
                = Ok ((if check_only then [] else out), gpop s4)).
-  { unfold visit_custom_gate. rewrite (bind_eq _ _ s s s eq_refl). rewrite Hg.
-    pose proof (get_op_bits_literals cr env s true bs R Hin Hd) as G. cbn iota in G.
-    rewrite (bind_eq _ _ s bs s G).
+  { unfold visit_custom_gate. rewrite (bind_eq _ _ s s s eq_refl). rewrite Hg'.
+    pose proof (get_op_bits_literals cr env s true bs R Hin Hd) as GB. cbn iota in GB.
+    rewrite (bind_eq _ _ s bs s GB).
     rewrite <- (cvals_length args vs Hargs), Hv, Nat.eqb_refl. cbn [guard]. rewrite (bind_eq _ _ s tt s eq_refl).
     rewrite Hb, Nat.eqb_refl. cbn [guard]. rewrite (bind_eq _ _ s tt s eq_refl).
     rewrite (bind_eq _ _ s vs s (cvals_eval cr args vs s Hargs)).
-    rewrite (bind_eq _ _ s s s eq_refl). rewrite Hst. cbn [negb guard]. rewrite (bind_eq _ _ s tt s eq_refl).
+    rewrite (bind_eq _ _ s s s eq_refl). rewrite Hst'. cbn [negb guard]. rewrite (bind_eq _ _ s tt s eq_refl).
     rewrite (bind_eq _ _ s tt (with_gstack s (name :: gstack s)) eq_refl).
     rewrite (bind_eq _ _ _ tt (gpush s name) eq_refl).
     fold qmap. fold pmap.
@@ -201,22 +210,94 @@ Proof.
   rewrite (bind_eq _ _ s (if check_only then [] else out) (gpop s4)).
   2:{ rewrite (bind_eq _ _ s (if check_only then [] else out) (gpop s4)).
       - rewrite (bind_eq _ _ (gpop s4) [] (gpop s4) eq_refl). unfold ret. now rewrite app_nil_r.
-      - rewrite (bind_eq _ _ s s s eq_refl). cbn [smem existsb]. rewrite (smemk_of _ _ _ Hg). exact Hc. }
+      - rewrite (bind_eq _ _ s s s eq_refl). cbn [smem existsb]. rewrite (smemk_of _ _ _ Hg'). exact Hc. }
   exists (gpop s4). split; [unfold emit, ret; destruct check_only; reflexivity|]. split; [eapply DE_gpop; eauto|].
   intros N r. rewrite dof_gpop. rewrite (S4 (fun r0 => eq_ind_r (fun z => 0 <= z) (N r0) (dof_gpush s name r0)) r).
   apply run_evs_ext. intros r0. apply dof_gpush.
 Qed.
+End Call.
 
-(* ---------- the other top-level statements leave the definitions and the expansion stack alone ---------- *)
-Definition gframe (s s' : st) : Prop := gates s' = gates s /\ gstack s' = gstack s.
+(* ---------- calls, nested to any depth below the bound n ---------- *)
+Definition ghandler (rec : list string -> string -> list pyval -> list bitref -> option (list stmt * list (list rsrc)))
+  (env : renv) (G : genv0) (stk : list string) : handler :=
+  fun op' =>
+    match op' with
+    | SGate mods gname gargs gqs =>
+        match sget gname G with
+        | Some _ => match mods, mapM lit_bit gqs, cvals gargs with
+                    | [], Some bs', Some vs' => rec stk gname vs' bs'
+                    | _, _, _ => None
+                    end
+        | None => mod_ok env op'
+        end
+    | _ => None
+    end.
 
-Lemma gframe_DE s s' : DE s s' -> gframe s s'.
+Fixpoint gcall (n : nat) (env : renv) (G : genv0) (stk : list string) (name : string) (vs : list pyval) (bs : list bitref)
+  {struct n} : option (list stmt * list (list rsrc)) :=
+  match n with
+  | O => None
+  | S n' =>
+      match sget name G with
+      | None => None
+      | Some gd =>
+          if negb (smem name stk) && Nat.eqb (List.length vs) (List.length (g_params gd)) &&
+             Nat.eqb (List.length bs) (List.length (g_qubits gd)) && forallb (in_reg (e_q env)) bs && distinctb [] bs
+          then
+            match mapM (binst (fold_left (fun acc p => sset (fst p) (snd p) acc) (combine (g_params gd) vs) [])
+                              (dedup_names_last (combine (g_qubits gd) bs)) name
+                              (ghandler (gcall n' env G) env G (name :: stk))) (g_body gd) with
+            | Some parts => Some (List.concat (map fst parts), List.concat (map snd parts))
+            | None => None
+            end
+          else None
+      end
+  end.
+
+Lemma gcall_fix check_only env G n : forall f stk s name args vs bs out evs,
+  (n <= S f)%nat -> Regs env s -> gates s = G -> gstack s = stk -> cvals args = Some vs ->
+  gcall n env G stk name vs bs = Some (out, evs) ->
+  exists s', visit_stmt check_only [] (S (S f)) (SGate [] name args (map qarg_of bs)) s
+             = Ok ((if check_only then [] else out), s') /\ DE s s' /\ Dstep s s' evs.
 Proof.
-  intros D. pose proof (de_core _ _ D) as E. split.
-  - transitivity (gates (nodepth s')); [destruct s'; reflexivity|]. rewrite E. destruct s; reflexivity.
-  - transitivity (gstack (nodepth s')); [destruct s'; reflexivity|]. rewrite E. destruct s; reflexivity.
+  induction n as [|n IH]; intros f stk s name args vs bs out evs Hn R HG Hstk Hargs Hc; [discriminate Hc|].
+  cbn [gcall] in Hc. destruct (sget name G) as [gd|] eqn:Eg; [|discriminate Hc].
+  match type of Hc with (if ?c then _ else _) = _ => destruct c eqn:C; [|discriminate Hc] end.
+  match type of Hc with match ?m with _ => _ end = _ => destruct m as [parts|] eqn:Ep; [|discriminate Hc] end. injection Hc as <- <-.
+  apply andb_true_iff in C as [C Hd]. apply andb_true_iff in C as [C Hin]. apply andb_true_iff in C as [C Hb].
+  apply andb_true_iff in C as [Hst Hv]. apply negb_true_iff in Hst. apply Nat.eqb_eq in Hv, Hb.
+  eapply (custom_call_core check_only f env G name stk (ghandler (gcall n env G) env G (name :: stk))); eauto.
+  (* the handler *)
+  intros op' o e s0 Ho R0 G0 S0. unfold ghandler in Ho. destruct op'; try discriminate Ho.
+  destruct (sget name0 G) as [gd0|] eqn:Eg0.
+  - destruct mods; [|discriminate Ho]. destruct (mapM lit_bit qubits) as [bs'|] eqn:Eb'; [|discriminate Ho].
+    destruct (cvals args0) as [vs'|] eqn:Ev'; [|discriminate Ho]. apply mapM_lit_bit in Eb' as ->.
+    destruct f as [|f']; [assert (n = O) by lia; subst n; discriminate Ho|].
+    eapply (IH f' (name :: stk) s0 name0 args0 vs' bs' o e); eauto. lia.
+  - eapply mod_fix; eauto.
 Qed.
 
+Lemma gcall_ops env G n : forall stk name vs bs out evs, gcall n env G stk name vs bs = Some (out, evs) -> forallb (op_ok env) out = true.
+Proof.
+  induction n as [|n IH]; intros stk name vs bs out evs Hc; [discriminate Hc|].
+  cbn [gcall] in Hc. destruct (sget name G) as [gd|]; [|discriminate Hc].
+  match type of Hc with (if ?c then _ else _) = _ => destruct c; [|discriminate Hc] end.
+  match type of Hc with match mapM ?h ?b with _ => _ end = _ => generalize dependent b; intros body Hc end.
+  match type of Hc with match ?m with _ => _ end = _ => destruct m as [parts|] eqn:Ep; [|discriminate Hc] end. injection Hc as <- _.
+  revert parts Ep. induction body as [|op body IHb]; intros parts Ep; cbn [mapM] in Ep.
+  - injection Ep as <-. reflexivity.
+  - match type of Ep with match ?a with _ => _ end = _ => destruct a as [[o e]|] eqn:Eb; [|discriminate Ep] end.
+    match type of Ep with match ?m with _ => _ end = _ => destruct m as [parts'|] eqn:Em; [|discriminate Ep] end. injection Ep as <-.
+    cbn [map List.concat fst]. rewrite forallb_app, (IHb parts' eq_refl), andb_true_r.
+    unfold binst in Eb. match type of Eb with match ?i with _ => _ end = _ => destruct i as [op'|]; [|discriminate Eb] end.
+    destruct (negb _); [|discriminate Eb]. unfold ghandler in Eb. destruct op'; try discriminate Eb.
+    destruct (sget name0 G).
+    + destruct mods; [|discriminate Eb]. destruct (mapM lit_bit qubits); [|discriminate Eb]. destruct (cvals args); [|discriminate Eb].
+      eapply IH; eauto.
+    + eapply mod_ok_ops; eauto.
+Qed.
+
+(* ---------- the other top-level statements leave the definitions and the expansion stack alone ---------- *)
 Lemma include_frame check_only env s f fuel : Top env s -> smem f (e_inc env) = false ->
   exists o s', visit_stmt check_only [] (S fuel) (SInclude f) s = Ok (o, s') /\ gframe s s'.
 Proof.
@@ -340,16 +421,16 @@ Proof.
 Qed.
 
 (* ---------- programs with gate definitions ---------- *)
-Definition genv := list (string * gatedef).
+Definition genv := genv0.
+
+(* nesting of gate definitions the judgement follows (the visitor's fuel must exceed it) *)
+Definition gate_nesting : nat := 24.
 
 Definition gcall_ok (env : renv) (G : genv) (stm : stmt) : option (list stmt * list (list rsrc)) :=
   match stm with
   | SGate [] name args qs =>
       match sget name G, mapM lit_bit qs, cvals args with
-      | Some gd, Some bs, Some vs =>
-          if Nat.eqb (List.length vs) (List.length (g_params gd)) && Nat.eqb (List.length bs) (List.length (g_qubits gd)) &&
-             forallb (in_reg (e_q env)) bs && distinctb [] bs
-          then call_out env gd name vs bs else None
+      | Some _, Some bs, Some vs => gcall gate_nesting env G [] name vs bs
       | _, _, _ => None
       end
   | _ => None
@@ -381,21 +462,6 @@ Fixpoint gexpand (env : renv) (G : genv) (l : list stmt) : option (list stmt * l
       end
   end.
 
-Lemma call_out_ops env gd name vs bs out evs : call_out env gd name vs bs = Some (out, evs) -> forallb (op_ok env) out = true.
-Proof.
-  unfold call_out. generalize (g_body gd), (dedup_names_last (combine (g_qubits gd) bs)),
-    (fold_left (fun acc p => sset (fst p) (snd p) acc) (combine (g_params gd) vs) ([] : list (string * pyval))).
-  intros body qmap pmap H.
-  destruct (mapM (binst pmap qmap name env) body) as [parts|] eqn:Ep; [|discriminate H]. injection H as <- _.
-  revert parts Ep. induction body as [|op body IH]; intros parts Ep; cbn [mapM] in Ep.
-  - injection Ep as <-. reflexivity.
-  - destruct (binst pmap qmap name env op) as [[o e]|] eqn:Eb; [|discriminate Ep].
-    destruct (mapM (binst pmap qmap name env) body) as [parts'|] eqn:Em; [|discriminate Ep]. injection Ep as <-.
-    cbn [map List.concat fst]. rewrite forallb_app, (IH parts' eq_refl), andb_true_r.
-    unfold binst in Eb. destruct (inst_gop pmap qmap op) as [op'|]; [|discriminate Eb].
-    destruct (negb _); [|discriminate Eb]. eapply mod_ok_ops; eauto.
-Qed.
-
 Lemma ptop_fix fuel env env' s stm out evs :
   (sdepth stm + 1 < fuel)%nat -> Top env s -> ptop_step env stm = Some (env', out, evs) ->
   exists s1, visit_stmt false [] fuel stm s = Ok (out, s1) /\ Top env' s1 /\
@@ -424,13 +490,13 @@ Proof.
       split; [intros r0; now apply wf_flat_ops|now apply gframe_DE].
 Qed.
 
-Lemma gprogram_fix fuel l : forall env G s q evs,
+Lemma gprogram_fix fuel l : (gate_nesting < fuel)%nat -> forall env G s q evs,
   (ldepth l + 1 < fuel)%nat -> Top env s -> gates s = G -> gstack s = [] -> gexpand env G l = Some (q, evs) ->
   exists s', concatMM (visit_stmt false [] fuel) l s = Ok (q, s') /\
              num_qubits s' = num_qubits s + total_qubits q /\ num_clbits s' = num_clbits s + total_clbits q /\
              Dstep s s' evs /\ wf_flat env q = true.
 Proof.
-  induction l as [|stm l IH]; intros env G s q evs Hf T HG Hst Hx; cbn [concatMM gexpand] in *.
+  intros HN. induction l as [|stm l IH]; intros env G s q evs Hf T HG Hst Hx; cbn [concatMM gexpand] in *.
   - injection Hx as <- <-. exists s. split; [reflexivity|]. cbn. split; [lia|]. split; [lia|]. split; [apply Dstep_same; reflexivity|reflexivity].
   - destruct (gtop_step env G stm) as [[[[env' G'] out] ev1]|] eqn:Es; [|discriminate Hx].
     destruct (gexpand env' G' l) as [[r evr]|] eqn:Er; [|discriminate Hx]. injection Hx as <- <-.
@@ -454,13 +520,11 @@ Proof.
         - injection Eo as <- <- <- <-. destruct stm; try discriminate Ec. cbn [gcall_ok] in Ec.
           destruct mods; [|discriminate Ec]. destruct (sget name G) as [gd|] eqn:Eg; [|discriminate Ec].
           destruct (mapM lit_bit qubits) as [bs|] eqn:Eb; [|discriminate Ec]. destruct (cvals args) as [vs|] eqn:Ev; [|discriminate Ec].
-          match type of Ec with (if ?c then _ else _) = _ => destruct c eqn:C; [|discriminate Ec] end.
-          apply andb_true_iff in C as [C Hd]. apply andb_true_iff in C as [C Hin]. apply andb_true_iff in C as [Hv Hb].
-          apply Nat.eqb_eq in Hv, Hb. apply mapM_lit_bit in Eb as ->.
+          apply mapM_lit_bit in Eb as ->.
           destruct fuel as [|[|f]]; try (cbn in Hf; lia).
-          destruct (custom_call_fix false f env s name gd args vs bs out' evs' (T_regs _ _ T)) as (s1 & E1 & D1 & S1); auto.
-          { now rewrite HG. } { now rewrite Hst. }
-          pose proof (call_out_ops env gd name vs bs out' evs' Ec) as Ops. destruct (total_ops env out' Ops) as [Tq Tc].
+          assert (HNf : (gate_nesting <= S f)%nat) by lia.
+          destruct (gcall_fix false env G gate_nesting f [] s name args vs bs out' evs' HNf (T_regs _ _ T) HG Hst Ev Ec) as (s1 & E1 & D1 & S1).
+          pose proof (gcall_ops env G gate_nesting [] name vs bs out' evs' Ec) as Ops. destruct (total_ops env out' Ops) as [Tq Tc].
           destruct (DE_counts _ _ D1) as [Nq Nc]. destruct (gframe_DE _ _ D1) as [Fg Fs].
           exists s1. split; [exact E1|]. split; [eapply Top_DE; eauto|]. split; [lia|]. split; [lia|]. split; [exact S1|].
           split; [intros r0; now apply wf_flat_ops|]. split; congruence.
@@ -493,13 +557,13 @@ Qed.
    over flat operations and operations on whole registers emits exactly the flat program the judgement computes: definitions
    vanish, every call is replaced by the instantiated body of its definition *)
 Theorem programs_with_gate_definitions_unroll_to_their_expansion fuel p q evs :
-  gexpand env0 [] p = Some (q, evs) -> (ldepth p + 1 < fuel)%nat ->
+  gexpand env0 [] p = Some (q, evs) -> (ldepth p + 1 < fuel)%nat -> (gate_nesting < fuel)%nat ->
   exists o, run_visit false false [] fuel p = Ok o /\ o_stmts o = q /\ wf_flat env0 q = true /\
             num_qubits (o_state o) = total_qubits q /\ num_clbits (o_state o) = total_clbits q /\
             forall r, dof (o_state o) r = depth_after rsrc_eqb evs r.
 Proof.
-  intros Hx Hf. unfold run_visit. cbn [andb].
-  destruct (gprogram_fix fuel p env0 [] init_st q evs Hf Top_init eq_refl eq_refl Hx) as (s2 & E2 & Nq2 & Nc2 & S2 & W).
+  intros Hx Hf HN. unfold run_visit. cbn [andb].
+  destruct (gprogram_fix fuel p HN env0 [] init_st q evs Hf Top_init eq_refl eq_refl Hx) as (s2 & E2 & Nq2 & Nc2 & S2 & W).
   rewrite E2. cbn in Nq2, Nc2.
   assert (N0 : nonneg init_st) by (intros r; destruct r as [[|] b]; cbn; lia).
   eexists. split; [reflexivity|]. cbn [o_stmts o_state]. split; [eapply wf_flat_finalize; eauto|].
@@ -565,12 +629,12 @@ Proof.
   exists s'. split; [exact E|exact D].
 Qed.
 
-Lemma gprogram_accepts fuel l : forall env G s q evs,
+Lemma gprogram_accepts fuel l : (gate_nesting < fuel)%nat -> forall env G s q evs,
   (ldepth l + 1 < fuel)%nat -> Top env s -> gates s = G -> gstack s = [] -> gexpand env G l = Some (q, evs) ->
   exists s', concatMM (visit_stmt true [] fuel) l s = Ok ([], s') /\
              num_qubits s' = num_qubits s + total_qubits q /\ num_clbits s' = num_clbits s + total_clbits q.
 Proof.
-  induction l as [|stm l IH]; intros env G s q evs Hf T HG Hst Hx; cbn [concatMM gexpand] in *.
+  intros HN. induction l as [|stm l IH]; intros env G s q evs Hf T HG Hst Hx; cbn [concatMM gexpand] in *.
   - injection Hx as <- <-. exists s. split; [reflexivity|]. cbn. split; lia.
   - destruct (gtop_step env G stm) as [[[[env' G'] out] ev1]|] eqn:Es; [|discriminate Hx].
     destruct (gexpand env' G' l) as [[r evr]|] eqn:Er; [|discriminate Hx]. injection Hx as <- <-.
@@ -597,13 +661,11 @@ Proof.
         - injection Eo as <- <- <- <-. destruct stm; try discriminate Ec. cbn [gcall_ok] in Ec.
           destruct mods; [|discriminate Ec]. destruct (sget name G) as [gd|] eqn:Eg; [|discriminate Ec].
           destruct (mapM lit_bit qubits) as [bs|] eqn:Eb; [|discriminate Ec]. destruct (cvals args) as [vs|] eqn:Ev; [|discriminate Ec].
-          match type of Ec with (if ?c then _ else _) = _ => destruct c eqn:C; [|discriminate Ec] end.
-          apply andb_true_iff in C as [C Hd]. apply andb_true_iff in C as [C Hin]. apply andb_true_iff in C as [Hv Hb].
-          apply Nat.eqb_eq in Hv, Hb. apply mapM_lit_bit in Eb as ->.
+          apply mapM_lit_bit in Eb as ->.
           destruct fuel as [|[|f]]; try (cbn in Hf; lia).
-          destruct (custom_call_fix true f env s name gd args vs bs out' evs' (T_regs _ _ T)) as (s1 & E1 & D1 & S1); auto.
-          { now rewrite HG. } { now rewrite Hst. }
-          exists s1. split; [exact E1|]. apply HDE; auto. eapply call_out_ops; eauto.
+          assert (HNf : (gate_nesting <= S f)%nat) by lia.
+          destruct (gcall_fix true env G gate_nesting f [] s name args vs bs out' evs' HNf (T_regs _ _ T) HG Hst Ev Ec) as (s1 & E1 & D1 & S1).
+          exists s1. split; [exact E1|]. apply HDE; auto. eapply gcall_ops; eauto.
         - destruct (mod_ok env stm) as [[mo me]|] eqn:Emo.
           { injection Eo as <- <- <- <-. destruct fuel as [|f]; [lia|].
             destruct (mod_fix true f env s stm mo me (T_regs _ _ T) Emo) as (s1 & E1 & D1 & S1).
@@ -639,11 +701,11 @@ Qed.
 
 (* validate() accepts every program of the judgement; num_qubits / num_clbits are then the register sizes of the expansion *)
 Theorem programs_of_the_judgement_are_accepted_by_validate fuel p q evs :
-  gexpand env0 [] p = Some (q, evs) -> (ldepth p + 1 < fuel)%nat ->
+  gexpand env0 [] p = Some (q, evs) -> (ldepth p + 1 < fuel)%nat -> (gate_nesting < fuel)%nat ->
   exists o, run_visit false true [] fuel p = Ok o /\
             num_qubits (o_state o) = total_qubits q /\ num_clbits (o_state o) = total_clbits q.
 Proof.
-  intros Hx Hf. unfold run_visit. cbn [andb].
-  destruct (gprogram_accepts fuel p env0 [] init_st q evs Hf Top_init eq_refl eq_refl Hx) as (s2 & E2 & Nq2 & Nc2).
+  intros Hx Hf HN. unfold run_visit. cbn [andb].
+  destruct (gprogram_accepts fuel p HN env0 [] init_st q evs Hf Top_init eq_refl eq_refl Hx) as (s2 & E2 & Nq2 & Nc2).
   rewrite E2. cbn in Nq2, Nc2. eexists. split; [reflexivity|]. cbn [o_state]. split; assumption.
 Qed.
